@@ -109,6 +109,14 @@ func expandC03(_ *testing.T, seed uint64, tier string) []*core.Plan {
 		L := wireLen(p)
 		p.SetKnob("cutat", r.Intn(L+1))
 		p.SetKnob("trunc", r.Intn(2))
+	case class == 3 && r.Chance(1, 6):
+		// remaining length around the 3/4-byte varint boundary (2 MiB): the header
+		// needs the full five-byte peek
+		p.Items = append(p.Items, core.Item{K: "send", A: 2, B: 2097152 - 14 + r.Intn(12), C: r.Intn(2), D: 1 + r.Intn(60000)})
+		if r.Chance(1, 2) {
+			p.Items = append(p.Items, core.Item{K: "send", A: 5, D: 7})
+		}
+		p.SetKnob("huge", 1)
 	default:
 		n := r.Range(1, 12)
 		if tier == "thorough" {
@@ -116,8 +124,16 @@ func expandC03(_ *testing.T, seed uint64, tier string) []*core.Plan {
 		}
 		genSends(r, p, n, r.Chance(1, 5), 0)
 	}
+	p.Yield = r.Pick(0, 0, 3, 8)
+	p.SetKnob("burst", r.Pick(0, 0, 1))
 	p.SetKnob("chunk", r.Pick(1, 2, 3, 5, 7, 64, 4096, 0, -1, -1, -1))
+	if p.Knob("huge", 0) == 1 {
+		p.SetKnob("chunk", r.Pick(0, 65536, 4096))
+	}
 	p.SetKnob("maxread", r.Pick(0, 0, 0, 1, 2, 3, 17, 4095))
+	if p.Knob("huge", 0) == 1 {
+		p.SetKnob("maxread", r.Pick(0, 4095, 65536))
+	}
 	if c := p.Knob("chunk", 0); c > 0 && c < 64 {
 		// byte-wise delivery: keep the stream short enough to finish, the
 		// 4096-byte bufio boundary stays inside the range
@@ -306,7 +322,17 @@ func runC03(t *testing.T, p *core.Plan) *core.Result {
 				}
 				break
 			}
-			switch acts[sched.Weighted(w)] {
+			pick := acts[sched.Weighted(w)]
+			if p.Knob("burst", 0) == 1 && pick == "deliver" && next < len(p.Items) && sched.Chance(1, 2) {
+				// deliver and send in the same step: receiver and sender are runnable together
+				n := link.A2B.InFlight()
+				if chunk > 0 && n > chunk {
+					n = chunk
+				}
+				deliver(n)
+				pick = "send"
+			}
+			switch pick {
 			case "send":
 				doSend()
 			case "close":
